@@ -67,7 +67,9 @@ class CompositeFrontend(ConstrainedFrontend):
 
     def __setstate__(self, s):
         self._solvers, self._template_frontend, self._unsat, self._track, base_state = s
-        self._owned_solvers = weakref.WeakSet(self._solver_list)
+        # Own nothing: composites pickled together (a solver and its branch) come back sharing their children, and none of
+        # them may write to a shared child in place. The first write claims (copies) the child.
+        self._owned_solvers = weakref.WeakSet()
         # which children had been checked is not part of the pickled state
         self._unchecked_solvers = weakref.WeakSet(self._solver_list)
         super().__setstate__(base_state)
